@@ -836,6 +836,67 @@ Section ParserThms.
     - rewrite (parse_step2 st E), (parse_step2 (feed_raw st b)) by (cbn; exact E).
       apply parse2_stable; assumption.
   Qed.
+
+  (* --- progress: a complete message has consumed at least one byte --- *)
+
+  Lemma ls_progress d f n e : line_step kd d = ASettled f n e -> 0 < n.
+  Proof. destruct kd; intros H; apply arun_progress in H; [lia|reflexivity|lia|reflexivity]. Qed.
+
+  Definition not_err (r : pres) : Prop := match r with PErr _ => False | _ => True end.
+
+  Lemma parse2_cur st r st' : parse2 st = (r, st') -> not_err r -> p_cur st <= p_cur st'.
+  Proof.
+    unfold parse2. destruct (body_step (p_msg st) (p_bs st) (skipn (p_cur st) (p_buf st)));
+      intros H Hr; inversion H; subst; cbn in *; try lia; contradiction.
+  Qed.
+
+  Lemma parse1_cur st r st' : parse1 st = (r, st') -> not_err r -> p_cur st <= p_cur st'.
+  Proof.
+    unfold ParserModel.parse1, restart_step.
+    destruct (headers_step (skipn (p_cur st) (p_buf st))) as [e|[|er] n e]; intros H Hr.
+    - inversion H; subst; cbn; lia.
+    - apply parse2_cur in H; [cbn in H; lia|exact Hr].
+    - inversion H; subst. contradiction.
+  Qed.
+
+  (* the cursor is at the very beginning only while the first line is still being read *)
+  Definition live (st : pstate) : Prop := p_cur st = 0 -> p_step st = 0.
+
+  Lemma parse_cur st r st' : parse st = (r, st') -> not_err r -> p_cur st <= p_cur st'.
+  Proof.
+    unfold ParserModel.parse. destruct (p_step st) as [|[|n]].
+    - unfold ParserModel.parse0, restart_step.
+      destruct (line_step kd (skipn (p_cur st) (p_buf st))) as [e|[|er] n e]; intros H Hr.
+      + inversion H; subst; cbn; lia.
+      + apply parse1_cur in H; [cbn in H; lia|exact Hr].
+      + inversion H; subst. contradiction.
+    - apply parse1_cur.
+    - apply parse2_cur.
+  Qed.
+
+  Lemma parse_done_progress st st' : live st -> parse st = (PDone, st') -> 0 < p_cur st'.
+  Proof.
+    intros Hl H. destruct (Nat.eq_dec (p_cur st) 0) as [E0|E0].
+    - specialize (Hl E0). unfold ParserModel.parse in H. rewrite Hl in H.
+      unfold ParserModel.parse0, restart_step in H.
+      destruct (line_step kd (skipn (p_cur st) (p_buf st))) as [e|[|er] n e] eqn:El; [discriminate| |discriminate].
+      apply ls_progress in El. apply parse1_cur in H; [cbn in H; lia|exact I].
+    - apply parse_cur in H; [lia|exact I].
+  Qed.
+
+  Lemma parse_again_live st st' : live st -> parse st = (PAgain, st') -> live st'.
+  Proof.
+    intros Hl H. destruct (Nat.eq_dec (p_cur st) 0) as [E0|E0].
+    - specialize (Hl E0). unfold ParserModel.parse in H. rewrite Hl in H.
+      unfold ParserModel.parse0, restart_step in H.
+      destruct (line_step kd (skipn (p_cur st) (p_buf st))) as [e|[|er] n e] eqn:El; [| |discriminate].
+      + inversion H; subst. intros _. cbn. exact Hl.
+      + apply ls_progress in El. apply parse1_cur in H; [|exact I]. cbn in H. intros E. lia.
+    - apply parse_cur in H; [|exact I]. intros E. lia.
+  Qed.
+
+  Lemma live_feed st b : live st -> live (feed_raw st b).
+  Proof. intros H. exact H. Qed.
 End ParserThms.
 
 (* ---------- runs over segmentations ---------- *)
